@@ -52,6 +52,20 @@ def map_scenario(sc):
     def add(i, pos, seq, lab, exp=None):
         A[i].append((pos, seq, lab, exp))
     cap = sc['buffer']
+    # close(s.closing) takes effect somewhere between its 'signal' stamp (placed BEFORE the close)
+    # and the first stamp that proves it happened: the teardown's own 'before_lock' stamp or a
+    # Sender's observation of the closed channel.  The non-blocking check at the head of the send
+    # loop (D13 repair) can still read "open" after the 'signal' stamp, so the model's close step
+    # is placed as LATE as the log allows and the Sender's loop-head step (read of s.closing +
+    # thread-local copy) as EARLY as it allows (right after the Sender's previous step).
+    closed_obs = {}                            # subscription uuid -> [seq of stamps that prove s.closing is closed]
+    for e in ev:
+        p, k = e['p'], e.get('k') or []
+        if p == 'gochannel.sub.close.before_lock':
+            closed_obs.setdefault(k[0], []).append(e['seq'])
+        elif p in ('gochannel.send.discard_closing', 'gochannel.send.closing_before_send', 'gochannel.send.closing_after_send'):
+            closed_obs.setdefault(k[1], []).append(e['seq'])
+    last_pos = {}                              # goroutine -> position of its latest Layer A label
     for e in ev:
         p, k, seq, g = e['p'], e.get('k') or [], e['seq'], e['g']
         if p.startswith('gochannel.send.'):
@@ -68,10 +82,11 @@ def map_scenario(sc):
                 m.problems.append('send hook without start'); continue
             _, t, pub = sender_tid[g]
             if what in ('locked', 'discard_closed', 'discard_closing', 'unlock'):
-                add(i, seq, seq, 'LStep %d' % t)
+                add(i, seq, seq, 'LStep %d' % t); last_pos[g] = seq
             elif what == 'before_chan':
                 cur_copy[g] = alloc_count[i]; alloc_count[i] += 1
-                add(i, seq, seq, 'LStep %d' % t)
+                pos = last_pos.get(g, seq - 0.001) + 0.001
+                add(i, min(pos, seq), seq, 'LStep %d' % t)
             elif what == 'sent':
                 key = (i, k[0]); n = recv_idx.get(key, 0); recv_idx[key] = n + 1
                 rl = recv_events.get(key, [])
@@ -92,7 +107,7 @@ def map_scenario(sc):
             elif what == 'acked':
                 add(i, seq, seq, 'LSeeAcked %d' % t)
             elif what == 'nacked':
-                add(i, seq, seq, 'LSeeNacked %d' % t)
+                add(i, seq, seq, 'LSeeNacked %d' % t); last_pos[g] = seq
             elif what in ('closing_before_send', 'closing_after_send'):
                 add(i, seq, seq, 'LSeeClosing %d' % t)
             elif what in ('wait_settle',):
@@ -101,7 +116,11 @@ def map_scenario(sc):
             if k[1] in uuid2sub: add(uuid2sub[k[1]], seq, seq, 'LTdSpawn')
         elif p == 'gochannel.teardown.woken':
             if k[0] in uuid2sub: add(uuid2sub[k[0]], seq, seq, 'LTdWake')
-        elif p in ('gochannel.sub.close.signal', 'gochannel.sub.close.locked', 'gochannel.sub.close.closing_output', 'gochannel.sub.close.unlock'):
+        elif p == 'gochannel.sub.close.signal':
+            later = [x for x in closed_obs.get(k[0], []) if x > seq]
+            pos = (min(later) - 0.25) if later else seq
+            if k[0] in uuid2sub: add(uuid2sub[k[0]], pos, seq, 'LTdStep')
+        elif p in ('gochannel.sub.close.locked', 'gochannel.sub.close.closing_output', 'gochannel.sub.close.unlock'):
             if k[0] in uuid2sub: add(uuid2sub[k[0]], seq, seq, 'LTdStep')
     # consumer settle labels need the model cid of the harness copy: second pass
     for e in ev:
